@@ -171,6 +171,15 @@ Theorem C12_source_tie_formatstring_init : forall inf s,
 Proof. exact src_formatstring_init_eq. Qed.
 Print Assumptions C12_source_tie_formatstring_init.
 
+(* the model's C12_own_errors read on the translated code (today's tables): normal end or one of the module's own error classes;
+   no AssertionError, IndexError, TypeError, no FFuel *)
+Theorem C12_source_tie_own_errors : forall s,
+  match src_FormatString_init std_info (S (length s)) s with
+  | FOk _ => True | FRaise k _ => own_class k | FAssert | FFuel => False
+  end.
+Proof. exact src_formatstring_init_own_errors. Qed.
+Print Assumptions C12_source_tie_own_errors.
+
 (* the translated code runs: "%*.*f%%%u" and "%(a(b))s %(a(b))d" on the tables of the working tree *)
 Example C12_src_ex_seq : src_FormatString_init gen_info 10 [37;42;46;42;102;37;37;37;117]
   = FOk ([PWarn KObsoleteConversion [AStr [37; 117]; AStr [37; 100]]],
